@@ -25,7 +25,7 @@ def main():
     if o.strip():
         sys.exit("/repo is not clean:\n" + o)
     missed = []
-    for d in sorted(glob.glob(os.path.join(VERIF, "seeded", "*"))):
+    for d in sorted(glob.glob(os.path.join(VERIF, "seeded", "*-?"))):
         mid = os.path.basename(d)
         if want and mid not in want:
             continue
